@@ -21,6 +21,17 @@ Local Notation lim := (lim ts).
 Local Notation tok_at := (tok_at ts).
 Local Notation len := (zlen ts).
 
+Lemma hid_leaves a : flat_map leaves (hid_list a) = leaves a.
+Proof. destruct a; cbn [hid_list flat_map leaves]; rewrite ?app_nil_r; reflexivity. Qed.
+
+Lemma hid_wfl hi a : wf hi a -> wfl hi (hid_list a).
+Proof. intros H. destruct a; cbn [hid_list ParserProofs.wfl]; first [exact I | split; [exact H | exact I]]. Qed.
+
+Lemma is_none_end_ok a q : is_none a = true -> end_ok a q.
+Proof.
+  unfold is_none, end_ok, end_of. destruct (strip_paren a); intros H0 ee H; first [discriminate H0 | discriminate H].
+Qed.
+
 Definition fence_wf (mx : option Z) : Prop :=
   match mx with Some f => f <= len /\ nl_or_end ts f | None => True end.
 
@@ -96,13 +107,15 @@ with wfl_tac :=
   | |- wfl _ [] => exact I
   | |- wfl _ (_ :: _) => apply wfl_cons; [wf_tac | wfl_tac]
   | |- wfl _ (_ ++ _) => apply wfl_app; [wfl_tac | wfl_tac]
+  | |- wfl _ (hid_list _) => apply hid_wfl; wf_tac
   | |- wfl _ (if ?b then _ else _) => destruct b; wfl_tac
   | |- wfl _ _ => first [eassumption | eapply wfl_mono; [eassumption | lia]]
   end.
 
 Ltac end_tac :=
   let ee := fresh in let H := fresh in
-  intros ee H; first [ cbn [end_of strip_paren] in H; injection H as <-; reflexivity | discriminate H ].
+  first [ apply is_none_end_ok; first [ assumption | apply negb_false_iff; assumption ]
+        | intros ee H; first [ cbn [end_of strip_paren] in H; injection H as <-; reflexivity | discriminate H ] ].
 
 (* turn "not None -> progress" facts into plain inequalities where the result is known not to be None *)
 Ltac prog_facts :=
@@ -187,12 +200,12 @@ Ltac leaves_tac :=
          end;
   repeat match goal with |- context [opt_tok ?n] => is_var n; destruct n as [[? ?]|] end;
   cbn [leaves flat_map opt_tok];
-  repeat rewrite flat_map_app; cbn [leaves flat_map];
+  repeat rewrite flat_map_app; repeat rewrite hid_leaves; cbn [leaves flat_map];
   repeat (match goal with
           | H : leaves _ = _ |- _ => rewrite H; clear H
           | H : flat_map leaves _ = _ |- _ => rewrite H; clear H
           | H : [_] = sig _ _ |- _ => rewrite H; clear H
-          end; cbn [leaves flat_map]; repeat rewrite flat_map_app);
+          end; cbn [leaves flat_map]; repeat rewrite flat_map_app; repeat rewrite hid_leaves);
   repeat rewrite <- app_assoc; repeat rewrite app_nil_r; cbn [app];
   repeat first [ rewrite sig_app_r by lia | rewrite sig_app by lia ];
   first [ reflexivity | rewrite sig_nil by lia; rewrite ?app_nil_r; reflexivity | symmetry; apply sig_nil; lia ].
@@ -206,6 +219,7 @@ Ltac none_goal :=
         | split; [reflexivity | lia]
         | reflexivity
         | match goal with E : negb (is_none ?a) = true |- _ => rewrite H in E; discriminate E end
+        | match goal with E : negb (is_none ?a) = false |- _ => rewrite H in E; discriminate E end
         | match goal with E : is_none ?a = false |- _ => rewrite H in E; discriminate E end
         | match goal with Hn : is_none ?a = true -> _ |- _ => destruct (Hn H); split; [assumption | lia] end
         | match goal with |- context [opt_tok ?n] => destruct n as [[? ?]|]; [discriminate H | split; [reflexivity | lia]] end ].
